@@ -37,7 +37,11 @@ def status():
 
 def main():
     src = open(LEAN).read()
-    bad = [w for w in ("sorry", "admit", "axiom ", "native_decide") if re.search(r"\b" + re.escape(w.strip()) + r"\b", src)]
+    code = re.sub(r"/-.*?-/", "", src, flags=re.S)
+    code = "\n".join(l.split("--")[0] for l in code.splitlines())
+    bad = [w for w in ("sorry", "admit", "native_decide") if re.search(r"\b" + w + r"\b", code)]
+    if re.search(r"^\s*axiom\b", code, flags=re.M):
+        bad.append("axiom")
     if bad:
         print("lemmas: forbidden escape hatch in spec/lemmas.lean:", bad)
         return 3
